@@ -86,7 +86,12 @@ Definition src_items (s : source) : list Z :=
   | SEmpty => []
   | SChan l => l
   | SScript evs => script_den evs
+  | SScriptNC evs => script_den evs
   end.
+
+(* sources whose Next never looks at the context *)
+Definition src_nc (s : source) : bool :=
+  match s with SScriptNC _ => true | _ => false end.
 
 (* ---- denotation of pipelines ---- *)
 Fixpoint den_z (p : pz) : list Z :=
@@ -140,7 +145,7 @@ Fixpoint no_transient (evs : list sevent) : Prop :=
    with ae = true any number of transient errors is allowed. *)
 Definition src_ok (ae : bool) (s : source) : Prop :=
   match s with
-  | SScript evs => no_fatal evs /\ (ae = false -> no_transient evs)
+  | SScript evs | SScriptNC evs => no_fatal evs /\ (ae = false -> no_transient evs)
   | _ => True
   end.
 Fixpoint okz (ae : bool) (p : pz) : Prop :=
@@ -269,9 +274,13 @@ Definition cb_codes (fl : failing) : list Z :=
   match fail_at fl with Some _ => [fail_err fl] | None => [] end.
 
 Definition src_scrub (k : list sevent) (s : source) : source :=
-  match s with SScript evs => SScript (cut_with k evs) | _ => s end.
+  match s with
+  | SScript evs => SScript (cut_with k evs)
+  | SScriptNC evs => SScriptNC (cut_with k evs)
+  | _ => s
+  end.
 Definition src_codes (s : source) : list Z :=
-  match s with SScript evs => fatal_codes evs | _ => [] end.
+  match s with SScript evs | SScriptNC evs => fatal_codes evs | _ => [] end.
 
 Fixpoint pz_scrub (k : list sevent) (p : pz) : pz :=
   match p with
@@ -306,3 +315,58 @@ with pl_codes (q : pl) : list Z :=
   match q with LChunk _ p | LRuns _ _ p => pz_codes p end.
 Definition pipe_codes (p : pz + pl) : list Z :=
   match p with inl p => pz_codes p | inr q => pl_codes q end.
+
+(* ---- the fault-erased twin of a pipeline: every transient source error removed from the
+   scripts (fatal errors, callbacks and everything else unchanged).  For pipelines without
+   unretryable faults (okp true) the twin is failure-free (okp false) and denotes the same
+   items. ---- *)
+Fixpoint erase_transient (evs : list sevent) : list sevent :=
+  match evs with
+  | [] => []
+  | EvTransient _ :: t => erase_transient t
+  | e :: t => e :: erase_transient t
+  end.
+
+Definition src_erase (s : source) : source :=
+  match s with
+  | SScript evs => SScript (erase_transient evs)
+  | SScriptNC evs => SScriptNC (erase_transient evs)
+  | _ => s
+  end.
+
+Fixpoint pz_erase (p : pz) : pz :=
+  match p with
+  | ZSrc id s => ZSrc id (src_erase s)
+  | ZPeek p => ZPeek (pz_erase p)
+  | ZCompact r p => ZCompact r (pz_erase p)
+  | ZFilter f fl p => ZFilter f fl (pz_erase p)
+  | ZFirst n p => ZFirst n (pz_erase p)
+  | ZFlatten ps => ZFlatten (map pz_erase ps)
+  | ZJoin ps => ZJoin (map pz_erase ps)
+  | ZMap f fl p => ZMap f fl (pz_erase p)
+  | ZWhile f fl p => ZWhile f fl (pz_erase p)
+  | ZFlattenSlices q => ZFlattenSlices (pl_erase q)
+  end
+with pl_erase (q : pl) : pl :=
+  match q with
+  | LChunk n p => LChunk n (pz_erase p)
+  | LRuns r t p => LRuns r t (pz_erase p)
+  end.
+Definition pipe_erase (p : pz + pl) : pz + pl :=
+  match p with inl p => inl (pz_erase p) | inr q => inr (pl_erase q) end.
+
+(* ---- pipelines none of whose parts ever looks at the context: every source is an SScriptNC
+   and there is no Flatten (the outer stream of a Flatten is a FromIterator, which does). ---- *)
+Fixpoint ctx_blind_z (p : pz) : Prop :=
+  match p with
+  | ZSrc _ s => src_nc s = true
+  | ZPeek p | ZCompact _ p | ZFilter _ _ p | ZFirst _ p | ZMap _ _ p | ZWhile _ _ p =>
+      ctx_blind_z p
+  | ZFlatten _ => False
+  | ZJoin ps => fold_right (fun p acc => ctx_blind_z p /\ acc) True ps
+  | ZFlattenSlices q => ctx_blind_l q
+  end
+with ctx_blind_l (q : pl) : Prop :=
+  match q with LChunk _ p | LRuns _ _ p => ctx_blind_z p end.
+Definition ctx_blind (p : pz + pl) : Prop :=
+  match p with inl p => ctx_blind_z p | inr q => ctx_blind_l q end.
